@@ -408,7 +408,8 @@ def documented(case):
 
 
 def block_ok(block, dets):
-    """checkpoint, set*, wait(sets), trigger*, [wait(triggers)], create, read*, save -- and every detector read."""
+    """checkpoint, set*, wait(sets), trigger*, [wait(triggers)], create, read*, save -- and every
+    detector and every scanned motor read (`dets` lists both)."""
     st = 0
     reads = []
     for m in block:
@@ -449,6 +450,10 @@ def oracle(case, obs):
     bad = []
     cls = f"{p}:motors={len(case.get('args') or case.get('lists') or case.get('cols') or case.get('axes') or [0, 0][: 2 if p == 'x2x_scan' else 1])}"
     dets = [f"d{i}" for i in range(len(case["dets"]))]
+    if doc["traj"]:
+        dets = dets + sorted(doc["traj"][0].keys())
+    elif p == "log_scan":
+        dets = dets + ["m0"]
     try:
         i0, i1 = msgs.index(["open_run"]), msgs.index(["close_run"])
     except ValueError:
@@ -483,7 +488,7 @@ def oracle(case, obs):
                     okp = have is not None and (have == w if exact else abs(have - w) <= TOL * max(1, abs(w)))
                     if not okp:
                         why = "never set" if have is None else f"at {float(have)!r}"
-                        kind = "skipped-move" if have is not None and any(have == t[mot] for t in doc["traj"][:k]) else "wrong-position"
+                        kind = "move-skipped" if have is None or any(have == t[mot] for t in doc["traj"][:k]) else "wrong-position"
                         bad.append((f"{cls}:{kind}{'' if exact else ':tolerance'}", f"point {k}: motor {mot} {why}, documented position {float(w)!r} (={w})"))
                         return bad
             k += 1
